@@ -9,7 +9,10 @@
 (* script can build -- aliases, closures, macros, quoted forms handed to    *)
 (* eval, argument lists handed to apply, forms handed to a builder -- is    *)
 (* a DERIVATION of such a call and has exactly the capability of what it   *)
-(* derives from.  The property therefore is: in a sandboxed configuration  *)
+(* derives from (also when the derived call is compiled and run inside a   *)
+(* DUPLICATE of the interpreter, as macro expansion and some builders do:  *)
+(* a duplicate of a sandboxed interpreter is sandboxed).                   *)
+(* The property therefore is: in a sandboxed configuration                 *)
 (* no callable name has an outside-world capability, along any derivation. *)
 (*                                                                         *)
 (* The universe U is NOT written here: it is dumped from the live          *)
@@ -100,6 +103,10 @@ Needs(r) ==
       [] r = "macro"   -> {"defmac", "syntaxQuote"}
       [] r = "builder" -> {"infix"}
       [] r = "fn"      -> {"fn"}
+      (* compiled and run inside a duplicate of the interpreter (env.Duplicate()): *)
+      [] r = "macrun"    -> {"defmac", "str"}               \* body of a macro that is not a template, as a call argument
+      [] r = "macexpand" -> {"defmac", "str", "macexpand"}  \* the same under macexpand
+      [] r = "expect"    -> {"expectError"}                 \* both arguments of the expectError builder
       [] OTHER         -> {}
 
 (* (a table, so that TLC computes it once) *)
